@@ -5,6 +5,8 @@ import (
 	"errors"
 	"fmt"
 	"os"
+	"path/filepath"
+	"sort"
 	"strings"
 	"testing"
 	"time"
@@ -352,8 +354,13 @@ func genC04Plan(rt *rapid.T) fPlan {
 func TestVerif_C04_NoHangingCalls(t *testing.T) {
 	c := stat.For("C04", "single-"+queueLabel()).Rule("a mix of synchronous, pipelined, cached, subscribed (Receive) and blocking calls of 1-5 callers is pending when one of {all connections reset by the peer, the peer stops reading and writing (keep-alive ping must fire), Client.Close} happens at a generated virtual instant, followed by later calls; oracle: every call returns (a call that never returns is a bubble deadlock or exceeds the virtual-time budget), a Receive cut by the failure returns an error, calls that start strictly after a connection reset with nothing else failing succeed on a fresh connection, calls that start after Close returned fail with ErrClosing, Close returns; non-trivial = >= 2 different kinds of call pending when the failure hits")
 	defer c.Flush()
-	rapid.Check(t, func(rt *rapid.T) {
-		plan := genC04Plan(rt)
+	// regression tier: the shrunk plans of the defects this check found (fixed since) run first, without the generator
+	replayPlans(t, "C04", func(rt stat.Fataler, plan fPlan) { c04Check(c, t, rt, plan) })
+	rapid.Check(t, func(rt *rapid.T) { c04Check(c, t, rt, genC04Plan(rt)) })
+}
+
+func c04Check(c *stat.Collector, t *testing.T, rt stat.Fataler, plan fPlan) {
+	{
 		saveCase("c04", plan)
 		run := fRunPlan(t, plan)
 		if run.Res.Frozen {
@@ -472,7 +479,7 @@ func TestVerif_C04_NoHangingCalls(t *testing.T) {
 		}
 		c.Eval(nt, fKey(plan), classes...)
 		c.Sample(nt, func() any { return plan })
-	})
+	}
 }
 
 // ---------------------------------------------------------------------------------- C05
@@ -608,4 +615,26 @@ func fTrace(run fRun, as []fAttempt) string {
 		}
 	}
 	return out
+}
+
+// replayPlans runs check on every plan stored in /verif/replays/<prop>/*.json (shrunk failing plans of repaired
+// defects and of seeded mutations): a seconds-long regression tier that does not depend on the generators.
+func replayPlans(t *testing.T, prop string, check func(rt stat.Fataler, plan fPlan)) {
+	root := os.Getenv("VERIF_ROOT")
+	if root == "" {
+		root = "/verif"
+	}
+	files, _ := filepath.Glob(filepath.Join(root, "replays", prop, "*.json"))
+	sort.Strings(files)
+	for _, f := range files {
+		b, err := os.ReadFile(f)
+		if err != nil {
+			t.Fatalf("replay %s: %v", f, err)
+		}
+		var plan fPlan
+		if err := json.Unmarshal(b, &plan); err != nil {
+			t.Fatalf("replay %s: %v", f, err)
+		}
+		check(t, plan)
+	}
 }
